@@ -70,6 +70,12 @@ def apply_unary(op, rows, cols=None):
         return rows[op.start:op.stop]
     if t == "Identity":
         return rows
+    if t == "SimAtLeast":
+        return list(rows) if len(rows) >= op.n else []
+    if t == "SimStride":
+        return rows[::op.k]
+    if t == "SimOrderBy":
+        return sorted(rows, key=lambda r: r[op.tag.qualified_name], reverse=op.descending)
     if t == "PartialJoin":
         raise InterpError("partial join needs fixed rows")
     raise InterpError(f"unknown unary {t}")
